@@ -282,6 +282,35 @@ int main(int argc, char **argv) {
         std::string s = ser(cs);
         run_case(s, [&] { Info info; run(cs, info); account(cs, info, fnv(s)); });
     });
+    // hostile headers: every magic/version, bank counts from a boundary list (incl. pairs that wrap 16-bit sums), body present / truncated / absent
+    pbt("c02_hostile_header", std::max<long>(c.n / 4, 20), 60, []() {
+        Case cs; cs.route = 2; cs.chips = 1;
+        std::string b; int ver = *rc::gen::element(-1, 0, 1, 2, 2, 2, 3, 65535);
+        if(ver < 0) b.append("WOPN2-BANK\0", 11); else { b.append("WOPN2-B2NK\0", 11); b += (char)(ver & 255); b += (char)(ver >> 8); }
+        static const std::vector<int> cnt = {0, 1, 2, 3, 127, 128, 255, 256, 257, 32767, 32768, 32769, 65534, 65535};
+        int nm = *rc::gen::elementOf(cnt), np = *rc::gen::elementOf(cnt);
+        if(*rng<int>(0, 3) == 0) np = (65536 - nm) & 0xFFFF;           // sums that wrap to 0
+        if(*rng<int>(0, 5) == 0) { nm = *rng<int>(0, 4); np = *rng<int>(0, 4); }
+        b += (char)(nm >> 8); b += (char)nm; b += (char)(np >> 8); b += (char)np; b += (char)*rng<int>(0, 255);
+        size_t isz = (ver >= 2 && ver <= 2) ? 69 : 65, meta = (ver == 2) ? 34 : 0;
+        size_t full = (size_t)(nm + np) * (meta + isz * 128);
+        size_t body;
+        switch(*rng<int>(0, 5)) {
+        case 0: body = 0; break;
+        case 1: body = (size_t)*rng<int>(0, 200); break;
+        case 2: body = full; break;
+        case 3: body = full > 0 ? full - (size_t)*rng<int>(1, 70) % full : 0; break;
+        case 4: body = (size_t)(nm + np) * meta + (size_t)*rng<int>(0, 2) * isz * 128; break;   // names present, 0-2 banks of instruments
+        default: body = (size_t)((nm + np) & 0xFFFF) * (meta + isz * 128); break;                // what a wrapped 16-bit total would ask for
+        }
+        if(body > 70000) body = 70000;
+        int fill = *rng<int>(0, 255);
+        b.append(body, (char)fill);
+        cs.raw = b;
+        Op p; p.kind = O_NOTEON; p.a = 0; p.b = 60; p.c = 100; cs.ops.push_back(p);
+        std::string s = ser(cs);
+        run_case(s, [&] { Info info; run(cs, info); account(cs, info, fnv(s)); });
+    });
     return finish();
 }
 #endif
